@@ -256,7 +256,8 @@ def _po_step(case):
 # ------------------------------------------------------------------ constructor calls (dataclass / namedtuple / attrs), keyword and positional spelling
 
 CT_PRE = ("from dataclasses import dataclass\nfrom collections import namedtuple\nimport attrs\n\n\n@dataclass\nclass DC2:\n    a: int\n    b: int = 0\n\n\n"
-          "NT2 = namedtuple('NT2', 'a,b')\n\n\n@attrs.define\nclass AT2:\n    a: int\n    b: int = 0\n\n\n")
+          "NT2 = namedtuple('NT2', 'a,b')\n\n\n@attrs.define\nclass AT2:\n    a: int\n    b: int = 0\n\n\n"
+          "@dataclass\nclass DCB:\n    a: int\n    b: int = 0\n\n\n@dataclass\nclass DCS2(DC2):\n    pass\n\n\n")
 CT_PREV = ["DC2(a=1, b=2)", "DC2(1, 2)", "DC2(1, b=2)", "NT2(a=1, b=2)", "NT2(1, 2)", "AT2(a=1, b=2)", "AT2(1, 2)"]
 
 
@@ -264,7 +265,8 @@ def _ct_cases():
     cases = []
     for prev in CT_PREV:
         cls = prev[:3]
-        for obs in ("%s(a=1, b=2)" % cls, "%s(a=1, b=3)" % cls, "%s(a=5, b=2)" % cls):
+        others = ("DCB(a=1, b=2)", "DCS2(a=1, b=2)", "DCB(a=1, b=3)") if cls == "DC2" and "=" in prev.split(",")[0] else ()
+        for obs in ("%s(a=1, b=2)" % cls, "%s(a=1, b=3)" % cls, "%s(a=5, b=2)" % cls) + others:
             for n in (1, 2):
                 for F in FS:
                     cases.append({"ct": True, "arg": prev, "obs": obs, "n": n, "F": F})
